@@ -177,7 +177,8 @@ func genCfg(r *emit.Rng) cfg {
 	case 1:
 		c.zt = math.Ldexp(1, r.Intn(8)-6)
 	default:
-		c.zt = -1 // zero threshold of zero
+		// zero threshold of zero: the documented constant -1 or "any negative float value"
+		c.zt = []float64{-1, -1, -0.5, -2, -1e-300, math.Inf(-1)}[r.Intn(6)]
 	}
 	if r.Chance(1, 2) {
 		c.maxZT = math.Ldexp(1, r.Intn(12)-2)
